@@ -28,12 +28,12 @@ theorem PL.carry : Carry PL := by
   refine ⟨?_, ?_, ?_, ?_, ?_, ?_, ?_, ?_⟩
   · intro w m h; exact h.frame (by simp) (by simp)
   · intro w l h; exact h.emit l
-  · intro w p n h; exact h.modProc_keep p _ (fun _ => rfl)
+  · intro w p n h; exact h.modProc_keep p (fun y => { y with pc := n }) (fun _ => rfl)
   · intro w p c h hp _ _ _; exact h.execCmd p hp c
   · intro w0 p f sig h _ hp
-    exact (h.modProc_keep p _ (fun _ => rfl)).resumeFrame p (by simpa using hp) f sig
+    exact (h.modProc_keep p (fun y => { y with blocked := none }) (fun _ => rfl)).resumeFrame p (by simpa using hp) f sig
   · intro w p v s h; exact h.finishProc p v s
-  · intro w p h; exact h.modProc_keep p _ (fun _ => rfl)
+  · intro w p h; exact h.modProc_keep p (fun y => { y with status := .running, pc := 0, blocked := none }) (fun _ => rfl)
   · intro w t ev' h _
     have hT : PL (S3.takeNext w t ev') := by
       unfold S3.takeNext
